@@ -213,6 +213,16 @@ GAME = ("abstract evaluation in the term domain on explicit small games (2-4 tea
         "polynomial normal form with denominators cleared)")
 
 CLAIMED.update({
+    "C01": (
+        GAME + ": the terms rate() stores are compared with a transcription of the five Weng-Lin update rules and their documented extensions",
+        "other",
+        "Narrow claim. On explicit games of 2 and 3 (thorough: 4) teams with one or two players per team, for every weak ordering of the rank values and all five models, the mu and sigma that rate() stores "
+        "for every player are, as functions of the inputs, the Weng-Lin closed forms with tau inflation, team sums, member share by own variance, kappa floor and gamma-scaled variance step: equality of polynomial "
+        "normal forms with denominators cleared and the logistic identity; v, w, vt, wt uninterpreted. Nothing is executed; the 1e-9 numeric agreement is not decided.",
+        "The oracle is a transcription of Weng & Lin (JMLR 2011) Algorithms 1-4 with the library's documented extensions, written out in osv/rules/c01.py and part of the trusted base (it is not contained in the property's sentence). "
+        "Not decided: floating-point rounding, the asymptotic branches of the Gaussian corrections (C17), games with more than three (four) teams or more than two players per team, a user-supplied gamma, limit_sigma (C06).",
+        "DESIGN.md §10.10 C01",
+    ),
     "C12": (
         GAME + ": the term each prediction returns is compared with the closed form spelled out in the statement",
         "other",
@@ -239,8 +249,6 @@ for _pid, _extra in {
     CLAIMED[_pid] = (_t[0] + _extra, _t[1], _t[2], _t[3] + " Explicit-game rules: " + GAME + "; finite in the number of teams (2-4) and players per team (1-2), exhaustive in the weak orderings of the ranks.", _t[4])
 
 NOT_APPLICABLE = {
-    "C01": "numeric equality (1e-9) with published closed forms over a continuous input box: no sound static "
-    "argument in reach; its structural necessary conditions are decided under C02/C03/C05/C06/C07/C16/C19",
 }
 
 PENDING = "static check designed (DESIGN.md §5) but not built yet in this tree; not claimed until it exists"
